@@ -60,7 +60,7 @@ SPEC = {
             "entry at a cell that was zeroed while absent)",
     "assumptions": [
         "additions by index use source == target (or, with compression, another member of the target's class) once in 12 operations; a column of the matrix obtained through get_column is never passed as an entry range for an addition onto itself (aliased entry ranges are not exercised)",
-        "a vector of entries is only used as a source when no lazy row swap is pending (its row indices are public ones)",
+        "the row indices of an entry vector used as a source are public ones (also while a lazy row swap is pending)",
         "no insertion beyond the end (no holes other than those left by remove_column); operations never address a removed index",
         "get_row(r) is only called for rows that certainly exist in the row container (lower bound derived from the model)",
         "erase_empty_row only on empty rows whose index was given to the matrix in an inserted column (and not erased since)",
